@@ -2664,10 +2664,28 @@ class PyCdlib:
         if found_file_entry.inode is None:
             raise pycdlibexception.PyCdlibInvalidInput('Cannot write out an entry without data')
 
+        if found_file_entry.inode.boot_info_table is not None and self._needs_reshuffle:
+            self._reshuffle_extents()
+
         if found_file_entry.get_data_length() > 0:
             for ino in [found_file_entry.inode] + found_file_entry.more_inodes:
                 with inode.InodeOpenData(ino, self.logical_block_size) as (data_fp, data_len):
-                    utils.copy_data(data_len, blocksize, data_fp, outfp)
+                    if ino.boot_info_table is not None:
+                        # Overlay the boot info table over bytes 8-64, as the
+                        # file has it on the ISO and under its other names.
+                        header_len = min(data_len, 8)
+                        outfp.write(data_fp.read(header_len))
+                        data_len -= header_len
+                        if data_len > 0:
+                            bi_rec = ino.boot_info_table.record()
+                            table_len = min(data_len, len(bi_rec))
+                            outfp.write(bi_rec[:table_len])
+                            data_len -= table_len
+                            if data_len > 0:
+                                data_fp.seek(len(bi_rec), os.SEEK_CUR)
+                                utils.copy_data(data_len, blocksize, data_fp, outfp)
+                    else:
+                        utils.copy_data(data_len, blocksize, data_fp, outfp)
 
     def _get_file_from_iso_fp(self, outfp, blocksize, iso_path, rr_path,
                               joliet_path):
@@ -6537,6 +6555,11 @@ class PyCdlib:
                 if cont.inode is not None:
                     more_inodes.append(cont.inode)
                 cont = cont.data_continuation
+
+        if rec.inode.boot_info_table is not None and self._needs_reshuffle:
+            # The stream shows the boot info table that the file has on the
+            # ISO, which holds locations that have to be up to date.
+            self._reshuffle_extents()
 
         return pycdlibio.PyCdlibIO(rec.inode, self.logical_block_size, more_inodes)
 
